@@ -1,6 +1,6 @@
 (* C08 checkers evaluated by the correspondence run: each returns the indices
    of the cases where model and real Go code disagree. *)
-From V Require Import Common.Base C08.SortPerm C08.Comparators C08.Dfs C08.Serializer.
+From V Require Import Common.Base C08.SortPerm C08.Comparators C08.Dfs C08.Serializer C08.Scanner.
 
 Fixpoint mism_from {A} (f : A -> bool) (l : list A) (i : nat) : list nat :=
   match l with
@@ -82,3 +82,46 @@ Definition ser_ok (c : Z * list (Z * Z)) : bool :=
   | None => false
   end.
 Definition check_ser := mismatches ser_ok.
+
+(* the scan phase: the allocation of source indices observed on the real
+   scanner (under delayed, reordered parse results) must be the outcome of SOME
+   schedule of the model, with the same import-record indices and entry points.
+   Case: (file graph as (file, imports), entry files, file of each source
+   index, record indices of each source index, entry point indices).
+   File 0 is the runtime. *)
+Fixpoint assoc_imports (g : list (Z * list Z)) (f : Z) : list Z :=
+  match g with [] => [] | (k, v) :: r => if f =? k then v else assoc_imports r f end.
+Definition alloc_consistent (alloc : list Z) (vis : list (Z * Z)) : bool :=
+  forallb (fun fi => nth (Z.to_nat (snd fi)) alloc (-99) =? fst fi) vis.
+Fixpoint pick_recv (imports : Z -> list Z) (alloc : list Z) (st : scan) (cands : list Z) : option scan :=
+  match cands with
+  | [] => None
+  | f :: r => match recv imports st f with
+              | Some st' => if alloc_consistent alloc (sc_vis st') then Some st' else pick_recv imports alloc st r
+              | None => pick_recv imports alloc st r
+              end
+  end.
+Fixpoint replay_scan (fuel : nat) (imports : Z -> list Z) (alloc : list Z) (st : scan) : option scan :=
+  match sc_pend st with
+  | [] => Some st
+  | _ => match fuel with
+         | O => None
+         | S k => match pick_recv imports alloc st (sc_pend st) with
+                  | Some st' => replay_scan k imports alloc st'
+                  | None => None
+                  end
+         end
+  end.
+Definition scan_ok (c : list (Z * list Z) * list Z * list Z * list (list Z) * list Z) : bool :=
+  let '(g, entries, alloc, recs, eidx) := c in
+  let imports := assoc_imports g in
+  let roots := 0 :: entries in
+  let '(st0, ridx) := scan_init roots in
+  match replay_scan (S (length alloc)) imports alloc st0 with
+  | Some st =>
+      alloc_consistent alloc (sc_vis st) && (sc_next st =? Z.of_nat (length alloc))
+      && zlist_eqb ridx (0 :: eidx)
+      && forallb (fun i => zlist_eqb (graph_of_scan st (Z.of_nat i)) (nth i recs [])) (seq 0 (length alloc))
+  | None => false
+  end.
+Definition check_scan := mismatches scan_ok.
